@@ -12,6 +12,14 @@ def compare(expected, got, arguments=True):
     """expected: H.reference(...) tuple; got: H.run_request(...) dict -> (clause, detail) or None; arguments=False leaves the resolver-argument
     comparison out (C05: how a custom scalar without a literal parser reads a literal is the scalar's business)"""
     kind = expected[0]
+    if kind == "exception" and str(expected[1]).startswith("unrepresentable leaf at ") and got["outcome"] == "result":
+        # a resolver result the leaf type cannot represent: the library fails the request; reporting it as an error of that field (null + one error with
+        # its path) is the other reading the specification allows - accepted as long as the error is there (agreement between configurations is C08's
+        # comparison of each configuration with this same judgement)
+        where = str(expected[1])[len("unrepresentable leaf at "):].split(": ")[0]
+        if any(repr(tuple(e.path)) == where for e in got["result"].errors if getattr(e, "path", None) is not None):
+            return None
+        return ("execute:unrepresentable-leaf-is-reported", "a resolver result the leaf type cannot represent at %s gave a result without an error for that path" % where)
     if kind == "exception":
         if got["outcome"] != "exception":
             return ("execute:unexpected-exception-fails-the-request", "the reference fails the whole request (%s) but the library returned %s"
